@@ -41,7 +41,7 @@ class QasmExporter(QCircuitExporter):
                 continue
 
             qbs = list(map(lambda gq: _qubit_name(_selfqc, gq), ws))
-            if p:
+            if p is not None:
                 gate_qasm += f'\t{g.__name__.lower()}({p:.2f}) {" ".join(qbs)}\n'
             else:
                 gate_qasm += f'\t{g.__name__.lower()} {" ".join(qbs)}\n'
@@ -72,7 +72,7 @@ class QasmExporter(QCircuitExporter):
                 continue
 
             qbs = list(map(lambda gq: _qubit_name(_selfqc, gq), ws))
-            if p:
+            if p is not None:
                 gate_qasm += f'\t{g.__name__.lower()}({p:.2f}) {" ".join(qbs)}\n'
             else:
                 gate_qasm += f'\t{g.__name__.lower()} {" ".join(qbs)}\n'
